@@ -240,7 +240,7 @@ def run(rep: Report, tier: str) -> None:
 		ro.skip('declaration-dependencies-first', okr.where, '_order_keys_recursive no longer appends <symbol>.types.fullyname')
 	for c_ in ref_appends:
 		k = unparse(c_.args[0])
-		decl_walks = [w for w in calls(rx, '_order_keys_recursive') if w.lineno < c_.lineno and any(isinstance(x, (ast.Subscript, ast.Call)) and '__items' in unparse(x) and k in unparse(x) for a in w.args for x in ast.walk(a))]
+		decl_walks = [w for w in calls(rx, '_order_keys_recursive') if w.lineno < c_.lineno and any(isinstance(x, (ast.Subscript, ast.Call)) and (unparse(x.value if isinstance(x, ast.Subscript) else x.func).split('.get')[0] in ('self.__items', 'self')) and k in unparse(x) for a in w.args for x in ast.walk(a))]  # the table row of the key: self.__items[k] / self.__items.get(k) / self[k] / self.get(k)
 		ro.check(bool(decl_walks), 'declaration-dependencies-first', (DB, c_.lineno), f'`{unparse(c_)}` lists a type key reached through a reference without first walking the declaration stored under that key (self.__items[{k}]): a class referenced before its own turn (forward reference `-> \'Gen[int]\'` above `T = TypeVar(...)` / `class Gen(Generic[T])`) is exported before the template types its row refers to, and import_json raises SymbolNotDefined', unparse(c_))
 	okx = X(ok_)
 	rec_calls = calls(okx, '_order_keys_recursive')
